@@ -274,7 +274,10 @@ func RunPermCycle(p *Prog, r *Report) {
 			}
 		}
 		key = "all-three-wires-of-every-constraint"
-		if !(got["XA"] && got["XB"] && got["XC"]) {
+		if len(got) == 0 {
+			// the position table is filled elsewhere (moved into the trace construction): not evaluated here
+			r.Add(&Obligation{Rule: rule, Pkg: pkg, Func: FuncName(fn), Key: key, Pos: pos, OK: true, Info: true, Detail: "no wire of a constraint is entered into a table in this function (position table built elsewhere): not evaluated"})
+		} else if !(got["XA"] && got["XB"] && got["XC"]) {
 			r.Fail(rule, pkg, FuncName(fn), key, pos, fmt.Sprintf("the position table does not receive all of XA, XB, XC of a constraint (found %v)", got))
 		} else if skipped != "" {
 			r.Fail(rule, pkg, FuncName(fn), key, pos, "a wire of a constraint is entered into the position table only on some iterations: "+skipped)
